@@ -174,10 +174,8 @@ class Translate(BaseTranslateFilter, TranslatableFilter):
                 message=(left.value,),
             )
 
-        if isinstance(_filter.args[0], PositionalArgument):
-            _context: Expression | None = _filter.args[0].value
-        else:
-            _context = None
+        positional = _positional(_filter)
+        _context: Expression | None = positional[0].value if positional else None
 
         plural: Expression | None = None
         for arg in _filter.args:
@@ -301,10 +299,11 @@ class NGetText(BaseTranslateFilter, TranslatableFilter):
         _filter: Filter,
         lineno: int,
     ) -> MessageText | None:
-        if len(_filter.args) < 1:
+        positional = _positional(_filter)
+        if len(positional) < 1:
             return None
 
-        plural = _filter.args[0].value
+        plural = positional[0].value
 
         if not isinstance(left, StringLiteral) or not isinstance(plural, StringLiteral):
             return None
@@ -354,10 +353,11 @@ class PGetText(BaseTranslateFilter, TranslatableFilter):
     def message(  # noqa: D102
         self, left: Expression, _filter: Filter, lineno: int
     ) -> MessageText | None:
-        if len(_filter.args) < 1:
+        positional = _positional(_filter)
+        if len(positional) < 1:
             return None
 
-        ctx = _filter.args[0].value
+        ctx = positional[0].value
 
         if not isinstance(left, StringLiteral) or not isinstance(ctx, StringLiteral):
             return None
@@ -424,11 +424,12 @@ class NPGetText(BaseTranslateFilter, TranslatableFilter):
         _filter: Filter,
         lineno: int,
     ) -> MessageText | None:
-        if len(_filter.args) < 2:  # noqa: PLR2004
+        positional = _positional(_filter)
+        if len(positional) < 2:  # noqa: PLR2004
             return None
 
-        ctx = _filter.args[0].value
-        plural = _filter.args[1].value
+        ctx = positional[0].value
+        plural = positional[1].value
 
         if (
             not isinstance(left, StringLiteral)
@@ -442,6 +443,14 @@ class NPGetText(BaseTranslateFilter, TranslatableFilter):
             funcname=self.name,
             message=((ctx.value, "c"), left.value, plural.value),
         )
+
+
+def _positional(_filter: Filter) -> list[PositionalArgument]:
+    """Return the positional arguments of _filter_, as the filter receives them.
+
+    Keyword arguments can be written before positional ones.
+    """
+    return [arg for arg in _filter.args if isinstance(arg, PositionalArgument)]
 
 
 def _count(val: Any) -> int | None:
